@@ -597,6 +597,9 @@ class GriffeLoader:
             logger.debug("%s. Missing __init__ module?", error)
             return
         submodule_name = subparts[-1]
+        if self._shadowed_by_previous_portion(parent_module, submodule_name, subpath):
+            logger.debug("Skip %s, another module took precedence", subpath)
+            return
         try:
             submodule = self._load_module(
                 submodule_name,
@@ -617,6 +620,28 @@ class GriffeLoader:
                         submodule.path,
                     )
             parent_module.set_member(submodule_name, submodule)
+
+    def _shadowed_by_previous_portion(self, parent_module: Module, submodule_name: str, subpath: Path) -> bool:
+        # In a namespace package spread over several directories, Python imports a plain module
+        # from the first directory that has it: same-named modules in the next directories are ignored.
+        # Stubs are not concerned: they get merged.
+        if not (parent_module.is_namespace_package or parent_module.is_namespace_subpackage):
+            return False
+        if subpath.suffix == ".pyi" or subpath.stem.split(".", 1)[0] == "__init__":
+            return False
+        try:
+            member = parent_module.members[submodule_name]
+        except KeyError:
+            return False
+        if member.is_alias or not member.is_module:
+            return False
+        filepath = member._filepath  # type: ignore[union-attr]
+        return (
+            isinstance(filepath, Path)
+            and filepath.suffix != ".pyi"
+            and filepath.stem.split(".", 1)[0] != "__init__"
+            and filepath.parent != subpath.parent
+        )
 
     def _create_module(self, module_name: str, module_path: Path | list[Path]) -> Module:
         return Module(
